@@ -1,4 +1,4 @@
 #!/bin/bash
 # usage: run_all_e2e.sh <seed> <tier>
 cd /verif
-for p in C02 C01 C03 C04 C05 C06 C07 C09; do VERIF_SEED=$1 ./check $p --tier ${2:-quick} 2>&1 | grep -v "^\[main\]\|^\[planted\]\|^\[engine\]\|^\[build\]\|^KNOWN" | cut -c1-300; done
+for p in C02 C01 C03 C04 C05 C06 C07 C09 C08; do VERIF_SEED=$1 ./check $p --tier ${2:-quick} 2>&1 | grep -v "^\[main\]\|^\[planted\]\|^\[engine\]\|^\[build\]\|^KNOWN" | cut -c1-300; done
